@@ -149,3 +149,48 @@ def _apply(transformer_cls):
 
 TRANSFORMS["commute"] = _apply(_Commute)
 TRANSFORMS["invert-if"] = _apply(_InvertIf)
+
+
+class _Temporaries(ast.NodeTransformer):
+    """return <expr>  ->  _ret = <expr>; return _ret    and    x += y  ->  x = x + y (simple names only)."""
+
+    def visit_FunctionDef(self, n):
+        self.generic_visit(n)
+        n.body = self._block(n.body)
+        return n
+
+    visit_AsyncFunctionDef = visit_FunctionDef
+
+    def _block(self, body):
+        out = []
+        for st in body:
+            for fld in ("body", "orelse", "finalbody"):
+                if hasattr(st, fld) and isinstance(getattr(st, fld), list) and not isinstance(st, (ast.FunctionDef, ast.AsyncFunctionDef, ast.ClassDef)):
+                    setattr(st, fld, self._block(getattr(st, fld)))
+            if isinstance(st, ast.Try):
+                for h in st.handlers:
+                    h.body = self._block(h.body)
+            if isinstance(st, ast.Return) and st.value is not None and not isinstance(st.value, (ast.Name, ast.Constant)):
+                out.append(ast.Assign(targets=[ast.Name(id="_ret_tmp", ctx=ast.Store())], value=st.value))
+                out.append(ast.Return(value=ast.Name(id="_ret_tmp", ctx=ast.Load())))
+            elif isinstance(st, ast.AugAssign) and isinstance(st.target, ast.Name):
+                out.append(ast.Assign(targets=[ast.Name(id=st.target.id, ctx=ast.Store())],
+                                      value=ast.BinOp(left=ast.Name(id=st.target.id, ctx=ast.Load()), op=st.op, right=st.value)))
+            else:
+                out.append(st)
+        return out
+
+
+class _DeMorgan(ast.NodeTransformer):
+    """not (a or b) -> (not a) and (not b);  not (a and b) -> (not a) or (not b)."""
+
+    def visit_UnaryOp(self, n):
+        self.generic_visit(n)
+        if isinstance(n.op, ast.Not) and isinstance(n.operand, ast.BoolOp):
+            op = ast.And() if isinstance(n.operand.op, ast.Or) else ast.Or()
+            return ast.BoolOp(op=op, values=[ast.UnaryOp(op=ast.Not(), operand=v) for v in n.operand.values])
+        return n
+
+
+TRANSFORMS["temporaries"] = _apply(_Temporaries)
+TRANSFORMS["de-morgan"] = _apply(_DeMorgan)
